@@ -1,3 +1,48 @@
+//! C05 (interning is a faithful bijection under every schedule) and C06 (lock-free arena):
+//! sequential model-based proptest, shuttle schedule exploration over the intern crate's
+//! feature-gated sync shims, and Miri runs of small real-thread programs (`../miri_conc`).
+use vcore::Report;
+
+mod c05_sched;
+mod c05_seq;
+mod c06;
+mod explore;
+mod miri;
+mod model;
+
 fn main() {
-    vcore::inconclusive("sched: not built yet");
+    let args = vcore::parse_args();
+    match args.property.as_str() {
+        "C05" => c05_seq::run(&args),
+        "C06" => c06::run(&args),
+        other => vcore::inconclusive(&format!("sched: unknown property {other}")),
+    }
+}
+
+/// Book one exploration run (many executions of one program) into the evidence.
+pub fn account(report: &Report, out: &explore::Outcome, scheduler: &str) {
+    for k in &out.nontrivial_keys {
+        report.case(Some(k), &[]);
+    }
+    for _ in 0..out.executions.saturating_sub(out.nontrivial_keys.len() as u64) {
+        report.case::<u64>(None, &[]);
+    }
+    report.label_n(&format!("scheduler={scheduler}"), out.executions);
+    for (l, n) in &out.labels {
+        report.label_n(l, *n);
+    }
+    if let (Some(s), "random") = (&out.sample, scheduler) {
+        report.sample("scheduled-program", 3, || s.clone());
+    }
+}
+
+/// Report a failed execution. Returns true when the campaign must stop (a violation was
+/// written); a failure whose signature is a listed open finding is counted and tolerated.
+pub fn handle_failure(report: &Report, name: &str, f: &explore::Failure, engine: &str) -> bool {
+    if report.is_known(&f.fail.signature) {
+        report.known_hit(&f.fail.signature);
+        return false;
+    }
+    report.violation(name, &f.fail, explore::failure_json(f, engine));
+    true
 }
